@@ -13,3 +13,8 @@ claim("C14", "DESIGN §3.2, §4 C14", EFF,
 for pid in ["C01","C02","C03","C04","C05","C06","C07","C08","C09","C10","C11","C15","C16","C18","C19","C20"]:
     na(pid, "static check designed (DESIGN §4) but not built yet in this commit; will be claimed when its rules are implemented")
 na("C17", "idempotence relates two complete runs over all inputs and has no structural clause of its own that is a necessary condition (DESIGN §6); no runtime double-canonicalisation is substituted")
+
+# --- C15 ---
+del NOT_APPLICABLE["C15"]
+claim("C15", "DESIGN §3.3, §4 C15", "SSA decision-DAG truth table + def-use error discipline (static)",
+      "Decides for all inputs and the four diagnostic configurations: the two diagnostics options are read only inside the three handlers (ERR-ni); each handler records iff reporting is on and returns its error iff failure or fail-on-validation-error, by an 8-row truth table over its extracted decision DAG (ERR-shape); every non-nil result of a handler or of a function deriving its error from one aborts the caller or is wrapped as a cause (ERR-callsite), so the flags can only change behaviour by aborting; every error reaching the result of a parse is a handler-built *ValidationError with a declared non-empty type (ERR-origin, ERR-access); the missing-scheme type the canonicalizer keys on is emitted at exactly one failure site (ERR-xpkg). Under fail-on-validation-error the returned record deliberately carries failure=false; no rule is armed against that.")
